@@ -102,3 +102,9 @@ claim("C26", "exploration",
       "Generated stage-pure invocations (usage errors, files with syntax errors, failing models of three kinds under no target / sympy / casadi, argparse errors, empty directories, success) run the real main() in a subprocess that reports whether it returned, called sys.exit or let an exception escape; the outcome must equal the scenario's error count, and for several -m the joint count must equal the sum of the models alone.",
       "counts for invocations mixing error stages are not defined by the property and only compared with each other",
       "DESIGN.md section 4, C26")
+
+claim("C12", "exploration",
+      "metamorphic monitor over the 8 representation-option combinations with (unroll, inline, no expand) as reference",
+      "Every generated model (at least one for-equation and one user-function call, some with delay) is compiled under all 8 combinations of unroll_loops x inline_functions x expand_mx; names, order, python types, shapes and attribute values of every variable list, outputs and delay states must be identical and the residual, initial-residual, metadata and delay-argument functions must agree numerically at 5 typed, well-conditioned points.",
+      "Booleans sampled in {0,1}; points the reference evaluator finds ill-conditioned are discarded (algebraically equivalent representations may differ there)",
+      "DESIGN.md section 4, C12")
